@@ -258,3 +258,16 @@ def warm_start_contracts(module, cls, copied_maps, derived_maps=(), props='C13',
                 '[C13,untouched] forall_arm(lambda a: implies(mem(self.arms, a) and not inkeys(%s, a), %s))'
                 % (MAPPING, same_a)])
 klass('StandardScaler', fields={'state': 'opaque'})
+
+# ------------------------------------------------------------------------------- partition of query rows (C05)
+fn('base_mab.BaseMAB._partition_contexts', props='C05 C08',
+   params={'n_contexts': 'int'},
+   requires=['n_contexts >= 1', 'self.n_jobs != 0'],
+   modifies=[], result='partition',
+   # C05: an ordered exact cover of the rows: chunk i is [starts[i], starts[i+1])
+   ensures=['[jobs] 1 <= result[0] and result[0] <= n_contexts',
+            '[lens] slen(result[1]) == result[0] and slen(result[2]) == result[0] + 1',
+            '[first] ival(result[2], 0) == 0', '[last] ival(result[2], result[0]) == n_contexts',
+            '[chunks] forall_int(lambda i: implies(0 <= i and i < result[0], ival(result[1], i) >= 0 and '
+            'ival(result[2], i + 1) - ival(result[2], i) == ival(result[1], i)), lambda i: ival(result[1], i))',
+            '[total] isum_of(result[1]) == n_contexts'])
